@@ -21,6 +21,9 @@ def combos():
         for forced in (False, True):
             for shape in ('leaf', 'chain'):
                 out.append({'kind': kind, 'forced': forced, 'shape': shape})
+    # explicit deletion of a stored result (Task.force(delete_data=True)): interrupted or failing at every operation
+    for kind in KINDS:
+        out.append({'kind': kind, 'forced': False, 'shape': 'leaf', 'mode': 'delete'})
     return out
 
 
@@ -88,7 +91,36 @@ def _base(combo, fault, hs2=1, post=None):
             'fault': fault, 'judged_op': req['i']}
 
 
+def _base_delete(combo, fault, hs2=1):
+    """the result is computed, then deleted through Task.force(delete_data=True); `fault` hits the deletion"""
+    w = world_for(combo)
+    n = [0]
+
+    def op(**d):
+        d['i'] = n[0]
+        n[0] += 1
+        return d
+    p0 = [op(op='build', cid='c0', root=0, render={'form': 'mem'}, pmode=True, store='main'),
+          op(op='req', cid='c0', task='grp:target', name='grp:target')]
+    dele = op(op='tforce', cid='c0', task='grp:target', name='grp:target', delete=True)
+    for k in ('crash', 'diskerr'):
+        if k in fault:
+            dele[k] = fault[k]
+    p0.append(dele)
+    if 'crash' not in fault:
+        p0 += [op(op='insp', cid='c0', kind='has_data'),
+               op(op='req', cid='c0', task='grp:target', name='grp:target')]
+    p1 = [op(op='build', cid='c1', root=0, render={'form': 'mem'}, pmode=True, store='main'),
+          op(op='insp', cid='c1', kind='has_data'),
+          op(op='req', cid='c1', task='grp:target', name='grp:target'),
+          op(op='insp', cid='c1', kind='has_data')]
+    return {'engine': 'storesim', 'world': w, 'procs': [{'hs': 0, 'ops': p0}, {'hs': hs2, 'ops': p1}], 'combo': combo,
+            'fault': fault, 'judged_op': dele['i']}
+
+
 def count_scenario(combo):
+    if combo.get('mode') == 'delete':
+        return _base_delete(combo, {'crash': {'k': 10**6, 'tear': None}})
     return _base(combo, {'crash': {'k': 10**6, 'tear': None}})
 
 
@@ -100,6 +132,15 @@ def expand(combo, count_obs):
     muts = [f for f in o['fs'] if f[0] not in ('ropen',)]
     n = len(muts)
     out = []
+    if combo.get('mode') == 'delete':
+        for k in range(n + 1):
+            out.append(_base_delete(combo, {'crash': {'k': k, 'tear': None}}))
+            if k < n:
+                out.append(_base_delete(combo, {'crash': {'k': k, 'tear': None, 'when': 'after'}}))
+                out.append(_base_delete(combo, {'crash': {'k': k, 'tear': None, 'when': 'interrupt'}}))
+                for e in ('EIO', 'EACCES'):
+                    out.append(_base_delete(combo, {'diskerr': {'k': k, 'errno': e}}))
+        return out, n
     for k in range(n + 1):
         out.append(_base(combo, {'crash': {'k': k, 'tear': None}}))
         if k < n:
